@@ -30,6 +30,8 @@ pub fn name_pools() -> Vec<(Vec<&'static str>, Vec<&'static str>)> {
         // a separator inside a name against the same string split over two nesting levels
         (vec!["system.web", "system", "web", "a.b", "a", "b"], vec!["k", "a.b"]),
         (vec!["a-b", "a", "b", "a_b", "a:b", "ab"], vec!["a-b", "a:b"]),
+        // prefixes that merely begin with `xmlns`, and names with several colons
+        (vec!["xmlnsx:a", "a", "xmlns_b:c", "p:q:r", "p:q"], vec!["xmlnsx:id", "xmlns_old:type", "xmlnsfoo", "xmlns", "xmlns:p", "p:q:id", "id"]),
     ]
 }
 
@@ -101,6 +103,50 @@ pub struct DocProp {
 
 pub fn no_tweak(_: &mut GenCfg, _: &mut Rng) {}
 const WIDE_NAMES: [&str; 20] = ["w0", "w1", "w2", "w3", "w4", "w5", "w6", "w7", "w8", "w9", "w10", "w11", "w12", "w13", "w14", "w15", "w16", "w17", "W1", "w-1"];
+/// a chain d1/d2/.../d<depth> of distinct names with some content at the bottom (and, in `variant`
+/// 1, one child less there): anything that stops descending at a fixed depth shows here
+fn very_deep_doc(depth: usize, variant: usize) -> Vec<Node> {
+    let mut inner: Vec<Node> = vec![Node::Elem { name: "leaf".into(), empty: false, attrs: vec!["k".into()], kids: vec![Node::Text] }];
+    if variant == 0 {
+        inner.push(Node::Elem { name: "item".into(), empty: true, attrs: vec![], kids: vec![] });
+        inner.push(Node::Elem { name: "item".into(), empty: true, attrs: vec![], kids: vec![] });
+    }
+    let mut cur = Node::Elem { name: format!("d{}", depth), empty: false, attrs: vec!["id".into()], kids: inner };
+    for i in (1..depth).rev() {
+        cur = Node::Elem { name: format!("d{}", i), empty: false, attrs: vec![], kids: vec![cur] };
+    }
+    vec![cur]
+}
+/// one parent with `n` distinct child names followed by a child that occurs twice
+fn many_names_doc(n: usize, twice: bool) -> Vec<Node> {
+    let mut kids: Vec<Node> = (0..n).map(|i| Node::Elem { name: format!("c{}", i), empty: true, attrs: vec![], kids: vec![] }).collect();
+    kids.push(Node::Elem { name: "entry".into(), empty: true, attrs: vec!["a".into()], kids: vec![] });
+    if twice {
+        kids.push(Node::Elem { name: "entry".into(), empty: true, attrs: vec![], kids: vec![] });
+    }
+    vec![Node::Elem { name: "record".into(), empty: false, attrs: vec![], kids }]
+}
+/// <list> with `n` occurrences of <item> (and one <other>)
+fn repeat_doc(n: usize) -> Vec<Node> {
+    let mut kids: Vec<Node> = (0..n).map(|_| Node::Elem { name: "item".into(), empty: true, attrs: vec![], kids: vec![] }).collect();
+    kids.push(Node::Elem { name: "other".into(), empty: false, attrs: vec![], kids: vec![Node::Text] });
+    vec![Node::Elem { name: "r".into(), empty: false, attrs: vec![], kids: vec![Node::Elem { name: "list".into(), empty: false, attrs: vec![], kids }] }]
+}
+/// the same name nested `depth` times (struct names qualified by ever longer ancestor chains)
+fn same_name_chain(name: &str, depth: usize) -> Vec<Node> {
+    let mut cur = Node::Elem { name: name.into(), empty: false, attrs: vec!["k".into()], kids: vec![Node::Elem { name: "x".into(), empty: true, attrs: vec!["y".into()], kids: vec![] }] };
+    for _ in 1..depth {
+        cur = Node::Elem { name: name.into(), empty: false, attrs: vec!["k".into()], kids: vec![cur] };
+    }
+    vec![cur]
+}
+const HUGE_NAMES: [&str; 12] = ["value", "Value", "value_1", "Value_1", "unit", "unit_attr", "VALUE", "value-1", "text", "text_content", "type", "Type"];
+const LONG_NAMES: [&str; 4] = [
+    "transport_schedule_configuration_entry",
+    "regional-transport-schedule-configuration",
+    "TransportScheduleConfigurationEntryWithAnExceptionallyLongDescriptiveElementNameOfOverEightyCharacters",
+    "entry",
+];
 const WIDE_ATTRS: [&str; 14] = ["a0", "a1", "a2", "a3", "a4", "a5", "a6", "a7", "a8", "a9", "a10", "a11", "a12", "a_1"];
 
 /// corpus/<property>.txt: document sequences replayed first on every run.  Blocks are separated
@@ -203,7 +249,7 @@ pub fn run_docprop(ctx: &mut Ctx, p: DocProp) {
         g.max_nodes = rng.range(4, 30);
         (p.tweak)(&mut g, &mut rng);
         let mut k = rng.range(1, p.max_docs);
-        let mut kind = "random-seq";
+        let mut kind: &'static str = "random-seq";
         // size classes beyond the usual bounds: anything keyed on a count, an index or a depth
         // (a position >= 10, a u8, a recursion limit) needs them to show
         match i % 40 {
@@ -223,6 +269,29 @@ pub fn run_docprop(ctx: &mut Ctx, p: DocProp) {
                 g.max_nodes = 60;
                 g.p_empty = 30;
             }
+            19 => {
+                // very wide, with interfering collision groups; and very long names
+                kind = "random-huge";
+                let mut v: Vec<String> = HUGE_NAMES.iter().map(|x| x.to_string()).collect();
+                for j in 0..rng.range(20, 34) {
+                    v.push(format!("f{}", j));
+                }
+                g.names = v;
+                g.attrs = ["unit", "unit_attr", "value", "Value", "k1", "k2", "k3", "k4", "k5", "k6", "k7", "k8"].iter().map(|x| x.to_string()).collect();
+                g.max_kids = rng.range(34, 48);
+                g.max_depth = 2;
+                g.max_nodes = 70;
+                g.p_empty = 400;
+            }
+            39 => {
+                kind = "random-long-names";
+                g.names = LONG_NAMES.iter().map(|x| x.to_string()).collect();
+                g.attrs = vec!["an_attribute_name_that_is_also_rather_long_for_an_attribute_0123456789".to_string(), "k".to_string()];
+                g.max_depth = 4;
+                g.max_kids = 3;
+                g.max_nodes = 14;
+                g.p_empty = 50;
+            }
             33 => {
                 kind = "random-many-docs";
                 k = rng.range(5, 9);
@@ -230,13 +299,57 @@ pub fn run_docprop(ctx: &mut Ctx, p: DocProp) {
             }
             _ => {}
         }
-        let root = if kind == "random-wide" { "w0" } else { *rng.pick(&names[..names.len().min(2)]) };
-        let docs: Vec<Vec<Node>> = (0..k).map(|_| gen_doc(&mut rng, &g, root)).collect();
+        let root = match kind {
+            "random-wide" => "w0",
+            "random-huge" => "value",
+            "random-long-names" => LONG_NAMES[0],
+            _ => *rng.pick(&names[..names.len().min(2)]),
+        };
+        let mut docs: Vec<Vec<Node>> = (0..k).map(|_| gen_doc(&mut rng, &g, root)).collect();
+        // chains hundreds of levels deep are expensive to render in the model: only the checks
+        // whose property is about the inferred tree get them
+        let deep_ok = matches!(ctx.prop.as_str(), "C01" | "C03" | "C06");
+        match i % 400 {
+            51 | 251 if deep_ok => {
+                kind = "fixed-very-deep";
+                let d = *rng.pick(&[127usize, 128, 129, 130, 140]);
+                docs = vec![very_deep_doc(d, 0), very_deep_doc(d, 1)];
+            }
+            151 if deep_ok => {
+                kind = "fixed-very-deep";
+                let d = *rng.pick(&[255usize, 256, 257, 258, 300]);
+                docs = vec![very_deep_doc(d, 0), very_deep_doc(d, 1)];
+            }
+            51 | 151 | 251 => {}
+            91 | 291 => {
+                kind = "fixed-many-names";
+                let n = *rng.pick(&[63usize, 64, 65, 70, 128, 129]);
+                docs = vec![many_names_doc(n, true), many_names_doc(n, false)];
+            }
+            131 | 331 => {
+                kind = "fixed-repeat";
+                let n = *rng.pick(&[255usize, 256, 257, 512]);
+                docs = match rng.below(3) {
+                    0 => vec![repeat_doc(n), repeat_doc(n)],
+                    1 => vec![repeat_doc(3), repeat_doc(n), repeat_doc(1)],
+                    _ => vec![repeat_doc(n)],
+                };
+            }
+            171 | 371 => {
+                kind = "fixed-same-name-chain";
+                let d = rng.range(18, 26);
+                docs = vec![same_name_chain(*rng.pick(&["section", "a", "ListItem"]), d)];
+            }
+            _ => {}
+        }
         cases.push((docs, kind));
     }
     for (docs, kind) in cases {
         let bytes = serialise(&docs, &mut rng);
-        let opts = (p.opts)(&mut rng);
+        let mut opts = (p.opts)(&mut rng);
+        if kind == "fixed-very-deep" {
+            opts.truncate(1);
+        }
         let b = build_case(Some(&docs), &bytes, &cfg, &opts, &mut sh.intern, vec![("kind", json::s(kind))]);
         hist.add(kind);
         hist.add(&format!("docs={}", docs.len()));
@@ -299,7 +412,7 @@ pub fn run_docprop(ctx: &mut Ctx, p: DocProp) {
     ctx.meta.push(("evaluations", J::N(evaluations)));
     ctx.meta.push(("distinct_nontrivial", J::N(distinct.len() as i64)));
     ctx.meta.push(("rule", json::s(format!(
-        "documents as DOM trees serialised with random incidental detail: {}{} random sequences of 1-{} documents with a common root (18 fixed name pools and, for a third of the cases, a pool of random names incl. keywords, case/separator variants, prefixed, non-ASCII, concatenation traps; depth<=5, fan-out<=6); {}; non-trivial = at least 3 nodes, distinct by DOM sequence",
+        "documents as DOM trees serialised with random incidental detail: {}{} random sequences of 1-{} documents with a common root (19 fixed name pools and, for a third of the cases, a pool of random names incl. keywords, case/separator variants, prefixed, non-ASCII, concatenation traps; depth<=5, fan-out<=6); {}; non-trivial = at least 3 nodes, distinct by DOM sequence",
         exh_note, n_rand, p.max_docs, p.what))));
     ctx.meta.push(("histogram", hist.json()));
     ctx.meta.push(("samples", J::A(samples)));
@@ -362,8 +475,9 @@ pub fn c01(ctx: &mut Ctx) {
 }
 pub fn c04(ctx: &mut Ctx) {
     let mut evals = vec![ev("bytes", "ev_bytes", "corr"), ev("wf", "or_wf", "oracle"), ev("reflects", "or_reflects", "oracle"), ev("hyp", "in_hyp_names", "hyp")];
-    evals.insert(0, ev("tree", "ev_tree", "corr"));
-    run_docprop(ctx, DocProp { evals, opts: opts_presets, exhaustive: false, n_rand: (2500, 60000), pools: vec![3, 4, 5, 6, 7, 8, 9, 10, 11, 12, 14, 15, 16, 17], tweak: no_tweak, extra: None, max_docs: 3, with_chars: true, what: "adversarial name pools only; both presets x both sort options" });
+    // renderer-only property: the parser's internal state is not compared here (a harmless rewrite
+    // of the parser must not break this check); `bytes` renders the implementation's own tree
+    run_docprop(ctx, DocProp { evals, opts: opts_presets, exhaustive: false, n_rand: (2500, 60000), pools: vec![3, 4, 5, 6, 7, 8, 9, 10, 11, 12, 14, 15, 16, 17, 18], tweak: no_tweak, extra: None, max_docs: 3, with_chars: true, what: "adversarial name pools only; both presets x both sort options" });
 }
 pub fn c09(ctx: &mut Ctx) {
     let mut evals = corr_core();
@@ -382,11 +496,11 @@ pub fn c09(ctx: &mut Ctx) {
     run_docprop(ctx, DocProp { evals, opts: opts_qx_both, exhaustive: true, n_rand: (2000, 60000), pools: vec![], tweak, extra: None, max_docs: 4, with_chars: true, what: "renderings in pairs (Unsorted, XmlName); generator widened to many attributes/children appearing late" });
 }
 pub fn c10(ctx: &mut Ctx) {
-    let evals = vec![ev("tree", "ev_tree", "corr"), ev("bytes", "ev_bytes", "corr"), ev("reflects", "or_reflects", "oracle"), ev("derive", "or_derive", "oracle"), ev("orthogonal", "or_orthogonal", "oracle")];
+    let evals = vec![ev("bytes", "ev_bytes", "corr"), ev("reflects", "or_reflects", "oracle"), ev("derive", "or_derive", "oracle"), ev("orthogonal", "or_orthogonal", "oracle")];
     run_docprop(ctx, DocProp { evals, opts: opts_variants, exhaustive: false, n_rand: (1500, 40000), pools: vec![], tweak: no_tweak, extra: None, max_docs: 3, with_chars: true, what: "six option values per tree: both presets and a random (text identifier, attribute prefix, derive) under both sort options" });
 }
 pub fn c14(ctx: &mut Ctx) {
-    let mut evals = vec![ev("tree", "ev_tree", "corr"), ev("bytes", "ev_bytes", "corr"), ev("names", "or_names", "oracle"), ev("hyp", "in_hyp_names", "hyp")];
+    let mut evals = vec![ev("bytes", "ev_bytes", "corr"), ev("names", "or_names", "oracle"), ev("hyp", "in_hyp_names", "hyp")];
     evals.push(ev("reflects", "or_reflects", "oracle"));
     fn tweak(g: &mut GenCfg, rng: &mut Rng) {
         // the same name at many depths and under itself: few names, deep trees
